@@ -221,10 +221,16 @@ def judge(res, U, Ulines, r, wr, flags, tape, prior_oracle=None):
         # 'q' before the first guess and needs 0.1 virtual seconds; if it ended without ever reaching the line that sets
         # the flag although plenty of guesses followed, the explicit quit was swallowed
         q_seen = [d for d in kb.delivered if d[0] == "line" and d[1] == "q"]
+        # (not judged when the status channel failed: the tool answers a 'q' on stderr before it sets the flag and gives the
+        # keyboard thread up when that cannot be written -- an operation that failed under an injected I/O error; what must
+        # still hold is that the stream is unaltered and that nothing becomes a quit that was not one)
+        sink = getattr(ctx, "stderr_sink", None)
         if sim.sync is not None and sim.sync_state == "idle" and q_seen and thr and thr[0].finished and died is None \
-                and total - q_seen[0][2] >= 12:
+                and total - q_seen[0][2] >= 12 and not (sink is not None and sink.fired):
             return ("explicit_quit_ignored", dict(info, q_delivered_after_lines=q_seen[0][2]))
         return None
+    if not any(d[0] == "line" and d[1].strip() == "q" for d in kb.delivered):
+        return ("quit_nobody_asked_for", dict(info, flag_set_after_lines=se[1]))
     g_s = se[1]
     info["flag_set_after_lines"] = g_s
     if S != Ulines[:len(S)]:
@@ -394,8 +400,14 @@ def run_one(tape, tier, prop):
                 res.violate("C12", problem[0] + "(resumed session)", det)
                 break
             continue
-        r = scheduled_cycle(flags, False, [dict(e) for e in events], sch, cost,
-                            knobs={"optimizer_max_length": t.draw(7)})
+        kn = {"optimizer_max_length": t.draw(7)}
+        if t.chance(1, 6):
+            # the status channel (stderr) cannot be written by the keyboard thread: a report that cannot be printed is no quit
+            import errno
+            kn["kbd_stderr_fault"] = (t.choice([errno.EPIPE, errno.EIO, errno.ENOSPC]), t.draw(3))
+        r = scheduled_cycle(flags, False, [dict(e) for e in events], sch, cost, knobs=kn)
+        if getattr(r.ctx, "stderr_sink", None) is not None:
+            res.faults["status_report_cannot_be_written"] += r.ctx.stderr_sink.fired
         res.stats["scheduled_sessions"] += 1
         res.sim_seconds += r.ctx.clock.now
         for k, v in r.ctx.kbd_faults.items():
